@@ -21,7 +21,7 @@ LEVEL = ("Coq theorems (Props/C18.v): for every amount type whose + - * / are to
          "instance with reference unit; the only other panic is the documented unit guard (theorem shared with C10). Decimal configuration: theorems over the model of fpdec::Decimal (Props/AccuracyDec.v) - + and - return a value when both operands are below 1e19 in absolute value, * when the exact product is, "
          "/ when the divisor is non-zero and the exact quotient is (DEC_totality); and the property's own envelope for the kernels of a quantity with reference unit (Props/EnvelopeDec.v): with the ratio of the two unit scales, the operands, the right operand expressed in the left operand's unit "
          "and the quotient between 1e-15 and 1e17, conversion, + - /, == / partial_cmp across units, derived products and quotients on both paths (natural unit and _fit, with the result expressible in every unit of the result quantity) and the rate operations return a value "
-         "(DEC_C18_envelope_convert / add_sub / div / cmp / derived / rate_mul / qty_div_rate; a converted divisor keeps at least 99.9 % of its magnitude, so it stays non-zero). Formatting and the composition of whole operation sequences inside the envelope are judged on the implementation by the exact-rational envelope test (testing): partial for the decimal configuration.")
+         "(DEC_C18_envelope_convert / add_sub / div / cmp / derived / rate_mul / qty_div_rate; a converted divisor keeps at least 99.9 % of its magnitude, so it stays non-zero). For the predefined quantities of the main crate the premises about the scales are discharged by computation (every decimal scale fits and is non-zero; every ratio of two unit scales of a quantity lies in the envelope, except for Volume whose mm^3 : km^3 = 1e-18 is outside it - the property makes no claim there), so conversion and + - / hold with premises on the amounts only (DEC_C18_catalogue_*). Formatting and the composition of whole operation sequences inside the envelope are judged on the implementation by the exact-rational envelope test (testing): partial for the decimal configuration.")
 LEVEL_NOTE = "Trusted: Coq kernel, translator rs2j+j2v (completeness of the panic sources it models), Amount/F64.v; decimal half: the fpdec model (Amount/DecModel.v) + differential testing; the decimal theorems use the stdlib real-number axioms (values are stated over R)."
 ASSUMPTIONS = [
     "Rust code translated without a Panic constructor cannot panic (no indexing, no integer arithmetic, no unwrap other than the modelled one in the translated regions)",
